@@ -167,10 +167,16 @@ class Inliner:
         if isinstance(f, ast.Name) and f.id in self.mod.functions and "." not in f.id:
             h = self.mod.functions[f.id]
             q = f.id
-        elif isinstance(f, ast.Attribute) and isinstance(f.value, ast.Name) and f.value.id == "self" and cls is not None:
+        elif isinstance(f, ast.Attribute) and isinstance(f.value, ast.Name) and cls is not None and f.value.id in ("self", "cls", cls.name):
             q = f"{qualname_of(cls)}.{f.attr}"
             h = self.mod.functions.get(q)
             is_method = True
+            if h is not None:
+                decos = [ast.unparse(d).split(".")[-1] for d in h.decorator_list]
+                if decos == ["staticmethod"]:
+                    is_method = False  # no receiver parameter: the call's arguments map to the parameters as they are
+                elif f.value.id != "self":
+                    h = None  # cls.f / ClassName.f of a plain or class method: not a helper call on this instance
         if h is None:
             return None
         name = q.split(".")[-1]
@@ -178,7 +184,7 @@ class Inliner:
             return None
         if any(isinstance(n, (ast.Yield, ast.YieldFrom)) for n in ast.walk(h)):
             return None
-        if h.args.vararg or h.args.kwarg or h.decorator_list:
+        if h.args.vararg or h.args.kwarg or [ast.unparse(d).split(".")[-1] for d in h.decorator_list] not in ([], ["staticmethod"]):
             return None
         if any(isinstance(n, ast.Call) and n is not call and ((isinstance(n.func, ast.Name) and n.func.id == name) or (isinstance(n.func, ast.Attribute) and n.func.attr == name)) for n in ast.walk(h)):
             return None  # recursive
